@@ -88,6 +88,9 @@
   (=> (bindFound r s p) (and (> (blen p) 0) (= (ServiceBinding_ServiceName (bindOf r s p)) s) (= (ServiceBinding_Provider (bindOf r s p)) p)
         (rng_ServiceBinding (bindOf r s p)) (ordinary (ServiceBinding_Owner (bindOf r s p)))
         (forall ((d Str)) (! (>= (amt (ServiceBinding_Deposit (bindOf r s p)) d) 0) :pattern ((amt (ServiceBinding_Deposit (bindOf r s p)) d))))
+        ; the recorded deposit is a valid coin list (what the module's own validation of a binding demands, C15)
+        (coinsValid (ServiceBinding_Deposit (bindOf r s p)))
+        (> (ServiceBinding_QoS (bindOf r s p)) 0)
         ; the stored price terms are the parsed form of the published pricing text (C15)
         (not (= (select r (KPricing s p)) bnil))
         (= (dec_Pricing (select r (KPricing s p))) (parsePricing (ServiceBinding_Pricing (bindOf r s p))))
